@@ -118,6 +118,8 @@ def unroll(ex, state, st, kind, limit=64):
             if not (z3.is_int_value(lo) and z3.is_int_value(hi)):
                 raise Unsupported("for over symbolic range without invariant (line %d)" % st.lineno)
             items = [VInt(i) for i in range(lo.as_long(), hi.as_long(), src[3])]
+        elif isinstance(src[1], VRef) and ex.obj(state, src[1]).kind == "udict":
+            return outs + _iterate_untrusted_keys(ex, state, st, ex.obj(state, src[1]))
         else:
             items = concrete_items(ex, state, src[1], st)
         if len(items) > limit:
@@ -197,6 +199,38 @@ def unroll(ex, state, st, kind, limit=64):
     return outs
 
 
+def _iterate_untrusted_keys(ex, state, st, o):
+    """`for k in d` over an untrusted dict (type udict:), which may hold any number of keys beyond the declared ones.
+    Admitted only for a body made of `if <test>: raise ...` statements: such iterations cannot influence each other or
+    the state, so the loop either raises for some key or falls through unchanged -- one iteration per declared key
+    (if present) and one for a generic further key (if there is one) cover every dict exactly"""
+    for b in st.body:
+        if not (isinstance(b, ast.If) and not b.orelse and len(b.body) == 1 and isinstance(b.body[0], ast.Raise)):
+            raise Unsupported("for over an untrusted dict whose body is not a sequence of `if ...: raise` (line %d)" % st.lineno)
+    if st.orelse:
+        raise Unsupported("for-else over an untrusted dict")
+    outs = []
+    keys = [(g, ex.const(k)) for k, g in o.opt.items()] + [(o.other, o.other_key)]
+    n0 = len(state.pc)
+    quiet = []
+    for g, kv in keys:
+        s = state.copy()
+        s.pending = []
+        s.assume(g)
+        if s.dead():
+            continue
+        ex.assign(s, st.target, kv)
+        for r in ex.exec_block(s, st.body):
+            if r.kind not in ("normal", "continue"):
+                outs.append(r)
+                quiet.append(z3.Not(z3.And(*r.state.pc[n0:])) if len(r.state.pc) > n0 else z3.BoolVal(False))
+    # the fall-through state: no iteration left the loop (the negated path conditions of those that did)
+    for q in quiet:
+        state.assume(q)
+    outs.append(Outcome("normal", state))
+    return outs
+
+
 def concrete_items(ex, state, v, st):
     if isinstance(v, VTuple):
         return list(v.items)
@@ -254,8 +288,13 @@ def cut_loop(ex, state, st, kind, spec, ordinal):
 
     check(state, "entry")
     # havoc everything the body may write
-    names, attrs, subs, has_calls = written_names(st.body + ([st] if kind == "for" else []))
+    # what an iteration may write: the body and the loop target -- not the else suite, which runs after the loop
+    names, attrs, subs, has_calls = written_names(st.body)
     if kind == "for":
+        n2, a2, s2, _ = written_names([ast.Assign(targets=[st.target], value=ast.Constant(None))])
+        names |= n2
+        attrs |= a2
+        subs |= s2
         names.add(idx_name)
     for n in sorted(names):
         cur = state.frame.locals.get(n)
@@ -349,7 +388,16 @@ def cut_loop(ex, state, st, kind, spec, ordinal):
         else:
             outs.append(o)
     if st.orelse:
-        raise Unsupported("loop else with invariant")
+        # the else suite runs when the loop ends without `break` (exit_state is exits[0] if it is feasible)
+        if exits and exits[0] is exit_state:
+            rest = exits[1:]
+            ran = []
+            for o in ex.exec_block(exit_state, st.orelse):
+                if o.kind == "normal":
+                    ran.append(o.state)
+                else:
+                    outs.append(o)
+            exits = ran + rest
     m = merge_states(exits) if exits else None
     if m is not None:
         outs.append(Outcome("normal", m))
